@@ -479,7 +479,11 @@ impl Store {
         (self.slab.len(), self.ids.len())
     }
 
-    pub(super) fn verif_streams(&self) -> impl Iterator<Item = &Stream> {
-        self.ids.values().map(move |i| &self.slab[i.0 as usize])
+    /// Every stream record still held (linked in the id map or not).
+    pub(super) fn verif_streams(&self) -> impl Iterator<Item = (&Stream, bool)> {
+        self.slab.iter().map(move |(k, s)| {
+            let linked = self.ids.get(&s.id).map(|i| i.0 as usize == k).unwrap_or(false);
+            (s, linked)
+        })
     }
 }
